@@ -20,12 +20,12 @@ func init() {
 		Rule: "all pairs of subsets of a small universe for every binary operation (receiver of the Union method with exact, missing-by-one, sufficient and no spare capacity, and aliased), " +
 			"all argument lists up to length 4 over {-1..3} for Add on every receiver within {0..4} and for NewSortedInts (length 5), Remove/ContainsSingle/Complement on all small sets, Range on a full cube of (start,end,step); " +
 			"seeded large sets, seeded histories of Add/Remove/Union on one value with bystander results; ints.Sort and the heapsort entry point on every small input and on patterned inputs of length 0..3000. " +
-			"Every operand lives inside a larger array surrounded by sentinels and is compared bit for bit (length, contents, spare capacity) after each call; for Add that includes the receiver's old array (a copy of the old value and the cells behind it). " +
+			"Every operand lives inside a larger array surrounded by sentinels and is compared bit for bit (length, contents, spare capacity) after each call; for the receivers of Add, Remove and the Union method that covers the array around the receiver's own cells (up to its capacity; Remove: its elements). " +
 			"Representations: the empty set as nil, empty non-nil with and without capacity, zero-length sub-slices and every empty result the library itself returns (Range, Intersection, SetMinus, XOR, Union, Complement, NewSortedInts(), emptied by Remove, nil receivers after Add()/Union(nil)) " +
 			"in every argument position of every function, as receiver and as variadic argument list, all ordered pairs of them and each with non-empty operands (exact, spare capacity, library result). " +
 			"Values: scenarios with several LIVE values sharing backing arrays - copies by assignment, prefixes / sub-slices of a larger set, longer earlier snapshots, library results, the raw array around a value - made in 12 ways " +
 			"(exact, spare capacity, grown by append, single Adds, NewSortedInts with repeats, after Remove, after in-place Union ...): every ordered pair of single mutations on two copies of one parent, and seeded forests of values mixing copies, mutators and functions whose results join the forest; " +
-			"after EVERY call all live values are compared with what they read before (cells inside the documented in-place licence of Remove / a fitting Union method are recorded, not judged). " +
+			"after EVERY call all live values are compared with what they read before (cells inside the receiver's own array that a mutator may rewrite in place - Remove: its elements; Add and a fitting Union method: up to its capacity - are recorded, not judged). " +
 			"non-trivial = binary case whose operands properly overlap (a-b, b-a and a&b all non-empty), Add/NewSortedInts list with a repeated or already present element plus a new one, Range with >= 2 elements, sort input longer than 12 that is not already sorted, " +
 			"pair of operands in two different representations, scenario in which a mutator ran while another live value shared the receiver's array; distinct = enumeration without repetition or hash of the operands",
 		Assumptions: []string{
@@ -33,17 +33,20 @@ func init() {
 			"Range(start,end,step) is read as documented: the elements start + i*step (i >= 0) from start (inclusive) towards end (exclusive), returned increasing; the three 'Infinite set' conditions of the code must panic; start == end is the empty set",
 			"Complement(n, a) for n < 0 is not fixed by the documentation and not exercised; Range is exercised up to the limits of int with small results only",
 			"the property speaks about sets: nil, empty non-nil and empty-with-capacity slices all are the empty set and must be treated alike as arguments; which of them a function returns for an empty result is recorded, not judged",
-			"'mutators change only their receiver' between values that share a backing array: Add is documented (by contrast with the Union method, which 'doesn't create any extra slices') to build its result in new memory, so no other value and no cell of the old array may change; " +
-				"Remove (shifts the receiver's own elements) and a Union method whose result fits the receiver's capacity work in place by design: a copy that reads the cells they move does change on the unchanged library - counted in values:value_sharing_the_array_disturbed_by_in_place_*(not judged) - while every cell outside that licence is judged",
+			"'mutators change only their receiver' between values that share a backing array is read the way the unchanged library itself requires for Remove and the Union method: " +
+				"a mutator (Add, Remove, the Union method) may rewrite any cell of its receiver's own backing array up to its capacity (Remove shifts the receiver's elements, the Union method merges in place when the result fits, " +
+				"Add may append or insert in place when there is room), so a copy or a longer snapshot that reads such cells may change - counted in values:value_sharing_the_array_disturbed_by_in_place_*(not judged) and the value leaves the scenario; " +
+				"judged: the arguments, every live value's cells outside the receiver's capacity window (Remove: outside its elements; a Union method that cannot fit: everything), the array around the receiver, " +
+				"and that a receiver which moved to another array shares it with no argument and no other value",
 		},
 		Run:            run,
 		MinEvaluations: map[string]int{"quick": 150000, "thorough": 1500000},
 		MinNontrivial:  map[string]int{"quick": 5000, "thorough": 50000},
-		RequiredObs: []string{"breathing:drains_completed", "breathing:set_at_a_quarter_of_its_capacity_or_less(cap>=64)",
+		RequiredObs: []string{"breathing:drains_completed",
 			"op:Union", "op:Intersection", "op:IntersectionSize", "op:SetMinus", "op:XOR", "op:ContainsSorted", "op:ContainsSingle", "op:Complement",
 			"op:NewSortedInts", "op:Add", "op:Remove", "op:Range", "op:Union_method", "Union_method:in_place", "Union_method:reallocated",
 			"Range:required_panics_seen", "Range:descending", "Add:args_repeated_and_present", "sort:heapsort_entry", "sort:Sort", "operands_compared_bitwise", "history:bystanders_checked",
-			"Add:copy_of_receiver_and_surrounding_array_compared", "Add:one_new_largest_element_on_receiver_with_spare_capacity",
+			"Add:array_around_receiver_compared", "Add:one_new_largest_element_on_receiver_with_spare_capacity",
 			"reps:pairs_of_empty_sets_one_nil_one_non_nil", "reps:empty_library_result_fed_back_as_argument", "reps:nil_receiver", "reps:nil_argument_list",
 			"values:copies_by_assignment", "values:other_values_compared", "values:mutations_while_another_live_value_shares_the_array",
 			"values:Add_on_receiver_whose_spare_capacity_is_read_by_another_live_value", "values:value_sharing_the_array_intact_after_in_place_Remove", "values:Union_method_that_cannot_be_done_in_place",
@@ -454,20 +457,27 @@ func (m *mon) addOn(recv, args []int, er, ex *emb, wit string, detail interface{
 		m.viol("Add", "result-aliases-argument", wit, detail, "the receiver now shares memory with the argument list", "receiver owns its cells")
 		return
 	}
-	// er.s still is the value the receiver had before the call (a copy of it, in the same array), and the array
-	// around it belongs to somebody else: Add builds its result in new slices (that is what the documentation
-	// of the Union method sets it apart by), so both read as before
-	c.Obs("Add:copy_of_receiver_and_surrounding_array_compared", 1)
+	// Like Remove and the Union method, Add may rewrite the cells of its receiver's own array up to its capacity
+	// (appending or inserting in place when there is room is its own business: recorded, not judged); the array
+	// AROUND the receiver belongs to somebody else and reads as before
+	c.Obs("Add:array_around_receiver_compared", 1)
 	if cap(er.s) > len(er.s) {
 		c.Obs("Add:receiver_with_spare_capacity", 1)
 		if len(args) == 1 && len(want) > len(R) && (len(recv) == 0 || args[0] > recv[len(recv)-1]) {
 			c.Obs("Add:one_new_largest_element_on_receiver_with_spare_capacity", 1)
 		}
 	}
-	if d := er.changed(er.s, len(recv)); d != "" {
-		m.viol("Add", "changes-value-other-than-receiver", wit, detail, "a copy of the receiver taken before the call / the array around it: "+d,
-			"Add changes its receiver only: copies of the old value and the cells behind it (spare capacity) read as before")
+	if d := er.outsideWindow(cap(er.s)); d != "" {
+		m.viol("Add", "writes-outside-receiver", wit, detail, d, "Add changes its receiver only: memory outside the receiver's own array (up to its capacity) untouched")
 		return
+	}
+	if er.aliases(s) {
+		c.Obs("Add:in_place", 1)
+	} else {
+		c.Obs("Add:reallocated", 1)
+	}
+	if er.changed(er.s, len(recv)) != "" {
+		c.Obs("Add:cells_of_the_receiver's_own_array_rewritten(not judged)", 1)
 	}
 	if (rep || present) && isNew {
 		if small {
